@@ -454,6 +454,13 @@ def make_grid2(ex, name, env, **kw):
         for vname, vspec in kw["tables"].items():
             data = make_value(ex, vspec, f"{name}.{vname}", env)
             g.fields["_ds"].entries[vname] = [True, make_dataarray(ex, f"{name}.{vname}", data=data)]
+    if kw.get("ds_vars") is not None:
+        # closed inventory: the dataset holds exactly these variables (iteration over it is concrete), contents unknown
+        dsd = g.fields["_ds"]
+        dsd.closed = True
+        for vname in kw["ds_vars"]:
+            if vname not in dsd.entries:
+                dsd.entries[vname] = [True, make_dataarray(ex, f"{name}.{vname}")]
     if kw.get("attrs") == "dict":
         # variables already in the dataset carry an attribute mapping with unknown contents (keys materialise on demand)
         g.fields["_ds"].ghost["entry_factory"] = lambda ex_, d, key: make_dataarray(
@@ -1227,3 +1234,74 @@ def _da_set_data(ex, base, node, env, fr):
 
 
 METHODS[("DataArray", "__setattr__:data")] = _da_set_data
+
+
+
+# ---- the grid's dataset as a mapping with a closed inventory: Dataset.isel / drop_vars / data_vars / variables (abstract mode) ----------
+def _is_dataset_dict(obj):
+    return isinstance(obj, SymDict) and (obj.ghost.get("ident") is not None or obj.ghost.get("dataset"))
+
+
+def _derived_dataset(obj, name):
+    d = SymDict(fresh_name(name), {}, closed=obj.closed, owner="fresh")
+    d.ghost["dataset"] = True
+    d.ghost["ident"] = z3.Const(fresh_name("dataset"), USORT)       # a new object
+    d.ghost["entry_factory"] = obj.ghost.get("entry_factory")
+    return d
+
+
+@method("SymDict", "call:isel")
+def symdict_isel(ex, obj, args, kwargs, node, env, fr):
+    """Dataset.isel(dim=indices): a NEW dataset with the same variables, each one indexed along that dimension (variables without
+    the dimension are unchanged - not distinguished here: every variable becomes isel(variable, dim, indices))"""
+    if not _is_dataset_dict(obj) or not ex.abstract or not obj.closed or args or len(kwargs) != 1:
+        raise Unsupported("isel on something else than a dataset with a closed inventory (one dimension per call)")
+    trusted(ex, "Dataset.isel(dim=indices): same variables, each indexed along the dimension by those indices")
+    (dim, idx), = kwargs.items()
+    d = _derived_dataset(obj, "ds_isel")
+    for k, (p, v) in obj.entries.items():
+        if p is True:
+            if v is V.UNSET:
+                v = obj.ghost["entry_factory"](ex, obj, k) if obj.ghost.get("entry_factory") else Opaque(name=f"{obj.name}.{k}")
+                obj.materialise(k, v)
+            d.entries[k] = [True, abs_value(ex, "xr:isel", [v, dim, idx], {})]
+        elif p is False:
+            d.entries[k] = [False, V.UNSET]
+        else:
+            raise Unsupported("isel of a dataset with a variable of unknown presence")
+    return d
+
+
+@method("SymDict", "call:drop_vars")
+def symdict_drop_vars(ex, obj, args, kwargs, node, env, fr):
+    if not _is_dataset_dict(obj) or len(args) != 1 or kwargs:
+        raise Unsupported("drop_vars on something else than a dataset")
+    names = args[0]
+    names = [names] if isinstance(names, str) else list(names)
+    if not all(isinstance(n_, str) for n_ in names):
+        raise Unsupported("drop_vars with non-literal names")
+    d = _derived_dataset(obj, "ds_drop")
+    d.entries = {k: list(e) for k, e in obj.entries.items()}
+    for n_ in names:
+        p = obj.present(n_)
+        if p is not True:
+            if p is False:
+                from .symexec import PathRaise
+                raise PathRaise("ValueError", node)
+            raise Unsupported("drop_vars of a variable of unknown presence")
+        d.entries[n_] = [False, V.UNSET]
+    return d
+
+
+@method("SymDict", "data_vars")
+def symdict_data_vars(ex, base, node, env, fr):
+    if not _is_dataset_dict(base):
+        raise Unsupported("data_vars of something else than a dataset")
+    return base
+
+
+@method("SymDict", "variables")
+def symdict_variables(ex, base, node, env, fr):
+    if not _is_dataset_dict(base):
+        raise Unsupported("variables of something else than a dataset")
+    return base
